@@ -252,6 +252,45 @@ def _pw(p):
     return [[[str(x) for x in a], [str(x) for x in b], float(sc).hex()] for a, b, sc in p.alignments]
 
 
+def function_repeats(dm, taxa, thr):
+    """Clustering / tree functions called twice with the SAME matrix object (a list of lists and a numpy float
+    array) and once with a fresh copy: all three results must be equal."""
+    import numpy as np
+    from lingpy.algorithm import clustering
+    canon = lambda r: (sorted([[str(k), v if isinstance(v, list) else [v]] for k, v in r.items()], key=lambda kv: kv[0])
+                       if isinstance(r, dict) else str(r))
+    calls = [("mcl", lambda m: clustering.mcl(thr, m, list(taxa))),
+             ("mcl_revert", lambda m: clustering.mcl(thr, m, list(taxa), revert=True)),
+             ("matrix2groups_mcl", lambda m: clustering.matrix2groups(thr, m, list(taxa), 'mcl')),
+             ("matrix2groups_upgma", lambda m: clustering.matrix2groups(thr, m, list(taxa), 'upgma')),
+             ("link_ints", lambda m: clustering.link_clustering(thr, m, list(range(len(taxa))), revert=True, fuzzy=False)),
+             ("flat_upgma", lambda m: clustering.flat_cluster('upgma', thr, m, list(taxa))),
+             ("flat_single", lambda m: clustering.flat_cluster('single', thr, m, list(taxa))),
+             ("flat_complete", lambda m: clustering.flat_cluster('complete', thr, m, list(taxa))),
+             ("flat_ward", lambda m: clustering.flat_cluster('ward', thr, m, list(taxa))),
+             ("upgma", lambda m: clustering.upgma(m, list(taxa))),
+             ("neighbor", lambda m: clustering.neighbor(m, list(taxa))),
+             ("matrix2tree", lambda m: clustering.matrix2tree(m, list(taxa), 'upgma'))]
+    results, bad = [], []
+    for kind, mk in (("list", lambda: [[float(v) for v in r] for r in dm]),
+                     ("ndarray", lambda: np.array(dm, dtype=float))):
+        for name, fn in calls:
+            m = mk()
+            try:
+                first = canon(fn(m))
+                second = canon(fn(m))
+                fresh = canon(fn(mk()))
+            except ImportError as e:
+                results.append([kind, name, "unavailable"])
+                continue
+            results.append([kind, name, fresh])
+            if not (first == second == fresh):
+                bad.append({"analysis": "%s called twice with the same %s matrix object" % (name, kind),
+                            "args": {"matrix": [[float(v) for v in r] for r in dm], "taxa": list(taxa), "threshold": thr},
+                            "first": [first, fresh], "second": [second, fresh]})
+    return results, bad
+
+
 def object_histories(lex, seed, ngroups):
     """Returns (results for the cross-interpreter comparison, list of repetition failures)."""
     from lingpy.align.multiple import Multiple
@@ -340,6 +379,16 @@ def pipeline(path, seed, runs, full):
         lex.cluster(method='lexstat', threshold=0.6, guess_threshold=True, gt_mode='nulld', ref='guessid',
                     override=True)
         e2e["guessid"] = column(lex, 'guessid')
+        e2e["guessed_threshold"] = float(lex._meta['guessed_threshold']).hex()
+        random.seed(seed + 1)                      # identically seeded again (lingpy draws from `random` only)
+        lex.cluster(method='lexstat', threshold=0.6, guess_threshold=True, gt_mode='nulld', ref='guessid',
+                    override=True)
+        if float(lex._meta['guessed_threshold']).hex() != e2e["guessed_threshold"] or column(lex, 'guessid') != e2e["guessid"]:
+            rep.append({"analysis": "cluster(guess_threshold=True, gt_mode='nulld') twice with random.seed(%d) before "
+                                    "each call" % (seed + 1),
+                        "args": {"method": "lexstat", "threshold": 0.6},
+                        "first": [e2e["guessed_threshold"], e2e["guessid"]],
+                        "second": [float(lex._meta['guessed_threshold']).hex(), column(lex, 'guessid')]})
     for ref in ("scaid", "lexstatid"):
         for tc in ("upgma", "neighbor"):
             e2e["tree_%s_%s" % (ref, tc)] = newick(lex, ref, tc)
@@ -384,6 +433,42 @@ def pipeline(path, seed, runs, full):
         e2e["cscorer_markov"] = [[float(v).hex() for v in row] for row in lex2.cscorer.matrix]
         lex2.cluster(method='lexstat', threshold=0.6, override=True)
         e2e["lexstatid_markov"] = column(lex2, 'lexstatid')
+    # Partial cognate detection: its own scorer assembly (compare/partial.py), clusterings
+    from lingpy.compare.partial import Partial
+    random.seed(seed)
+    part = Partial(path)
+    random.seed(seed)
+    part.get_partial_scorer(runs=runs)
+    tabp = {}
+    out["kernels"]["scorer_partial"] = {"chars": list(part.chars), "fkeys": [list(part.freqs[t]) for t in part.cols],
+                                        "b": _matrix_ids(tabp, part.bscorer.matrix),
+                                        "c": _matrix_ids(tabp, part.cscorer.matrix)}
+    pm = part.cscorer.matrix
+    e2e["partial_cscorer"] = [[float(v).hex() for v in row] for row in pm]
+    e2e["partial_chars"] = list(part.chars)
+    e2e["partial_cscorer_asym"] = [[a, b] for a in range(len(pm)) for b in range(a) if pm[a][b] != pm[b][a]][:5]
+    for ref, kw in (("p_lexstat", dict(method='lexstat', threshold=0.6, cluster_method='upgma', ref='p_lexstat')),
+                    ("p_sca", dict(method='sca', threshold=0.45, cluster_method='single', ref='p_sca')),
+                    ("p_mcl", dict(method='sca', threshold=0.45, cluster_method='mcl', ref='p_mcl'))):
+        part.partial_cluster(**kw)
+        e2e[ref] = [v for k, v in column(part, ref)]
+    # again, in another order (partial_cluster cannot overwrite a column: the repetition writes a new one)
+    for ref, kw in (("p_sca", dict(method='sca', threshold=0.45, cluster_method='single', ref='p_sca_again')),
+                    ("p_lexstat", dict(method='lexstat', threshold=0.6, cluster_method='upgma', ref='p_lexstat_again'))):
+        part.partial_cluster(**kw)
+        again = [v for k, v in column(part, kw['ref'])]
+        if again != e2e[ref]:
+            rep.append({"analysis": "partial_cluster", "args": kw, "first": e2e[ref], "second": again})
+    random.seed(seed)
+    part.get_partial_scorer(runs=runs, force=True)
+    again = [[float(v).hex() for v in row] for row in part.cscorer.matrix]
+    if again != e2e["partial_cscorer"]:
+        rep.append({"analysis": "get_partial_scorer(force=True) after re-seeding", "args": {"runs": runs},
+                    "first": "e2e.partial_cscorer", "second": again})
+    # (C) the same function call twice on the SAME input object (list and numpy array), and on a fresh copy
+    fres, fbad = function_repeats(dm, list(lex.cols), thr)
+    e2e["function_repeats"] = fres
+    rep.extend(fbad)
     # --- (c) the same analyses again on the same objects, in another order
     order = list(reversed(CLUSTER_CALLS)) + CLUSTER_CALLS[:3]
     for ref, kw in order:
@@ -433,7 +518,8 @@ def pipeline(path, seed, runs, full):
     hres, hbad = object_histories(lex, seed, 6 if full else 3)
     e2e["object_histories"] = hres
     rep.extend(hbad)
-    out["repeat_checked"] = 22 + len(hres)             # 17 re-runs, 5 fresh-object comparisons, the history steps
+    # 17 re-runs, 5 fresh-object comparisons, nulld re-run, 3 Partial re-runs, the history steps, the function repeats
+    out["repeat_checked"] = 26 + len(hres) + 2 * len(fres)
     out["e2e"], out["repeat"] = e2e, rep
     return out
 
